@@ -1,14 +1,11 @@
 import LocustModel.Query.Filter
 /-
-  Classifiers of the open known findings of C03 (decidable predicates on a case, evaluated by the driver).
+  Classifiers of the open known findings of C03 (decidable predicates on a case, evaluated by the driver), and the
+  per-case validation of the side conditions of `C03_where`.
 
-  C03-and-or-null  (DESIGN §8 #2): AND / OR are computed on the data bytes and the result is NULL whenever an operand is
-  NULL (planner.rs `combine_nulls`), instead of Kleene logic; a Null-typed operand of OR (column absent from the
-  partition) is replaced by the other operand.  Observable when `NULL OR TRUE` (Kleene: TRUE, row kept) occurs, or
-  under NOT (`NOT (NULL OR FALSE)`: Kleene NULL, engine TRUE).
-  Classifier: the specification and the implementation model both yield rows, the row sets differ, and on EVERY row of
-  the symmetric difference some AND/OR node of the predicate has an operand that the specification evaluates to NULL.
-  (It is the negation of the extra hypothesis of `C03_where`.)
+  `andOrNull` was the classifier of C03-and-or-null (DESIGN §8 #2: AND / OR computed
+  on the data bytes with the null maps and-ed instead of Kleene logic; fixed in /repo by the KleeneNullMap operator): a
+  fixed entry suppresses nothing, so `classify` no longer emits it — a regression is reported as a VIOLATION.
 -/
 namespace LM.Filter.Findings
 open LM LM.Sql LM.Filter
@@ -66,7 +63,11 @@ def badImage (parts : List (Nat × Part)) : Option (Nat × Nat) :=
       | .img im => if imageOK im cells then none else some (start, j)
       | .absent => none)
 
-def classify (fp : FP) (_parts : List (Nat × Part)) (e : Expr) (rows : List Row) (model : QOut) (spec : Res (List Row)) : String :=
-  if andOrNull fp e rows model spec then "C03-and-or-null" else ""
+/-- C03-shared-str-const-panic: the model predicts a worker panic and some partition has a string literal that is
+    compared both with a dictionary-coded and with a decoded string column (`sharedStrLiteral`). -/
+def classify (_fp : FP) (parts : List (Nat × Part)) (e : Expr) (_rows : List Row) (model : QOut) (_spec : Res (List Row)) : String :=
+  match model with
+  | .err .panic => if parts.any (fun sp => sharedStrLiteral sp.2 e) then "C03-shared-str-const-panic" else ""
+  | _ => ""
 
 end LM.Filter.Findings
